@@ -357,9 +357,11 @@ namespace OP2Utility::Archive
 		m_IndexTableLength = ReadTag(TagVOLI);
 		m_IndexEntryCount = m_IndexTableLength / sizeof(IndexEntry);
 
-		if (m_IndexTableLength > 0) {
+		// Note: Read whole entries only. A table length that is not a multiple of the entry size
+		// would otherwise write its remainder past the end of the entry container
+		if (m_IndexEntryCount > 0) {
 			m_IndexEntries.resize(m_IndexEntryCount);
-			archiveFileReader.Read(m_IndexEntries.data(), m_IndexTableLength);
+			archiveFileReader.Read(m_IndexEntries);
 		}
 
 		if (m_HeaderLength < m_StringTableLength + m_IndexTableLength + 24) {
